@@ -211,8 +211,22 @@ def run(ctx):
     Ff = ctx.facts(f)
     gf = ctx.cfg(f)
     raw = Keys(u)
+    def _is_spec_set(e):
+        # a string literal, a constant char array, or std::begin() of one
+        x_ = peel(e)
+        if x_ is None:
+            return False
+        if x_.get('kind') == 'StringLiteral':
+            return True
+        if x_.get('kind') == 'CallExpr' and callee(x_) and callee(x_)[0] == 'fn' and callee(x_)[1].get('name') in ('begin', 'cbegin') \
+                and call_args(x_):
+            x_ = peel(call_args(x_)[0])
+        if x_ is not None and x_.get('kind') == 'DeclRefExpr':
+            d_ = u.by_id.get((x_.get('referencedDecl') or {}).get('id'))
+            return bool(d_ is not None and re.search(r'^const char\s*\[', dtype(d_) or qtype(d_) or ''))
+        return False
     disp = [x for x in walk(f) if x.get('kind') == 'CallExpr' and callee(x) and callee(x)[0] == 'fn' and
-            callee(x)[1].get('name') == 'strchr' and peel(call_args(x)[0]).get('kind') == 'StringLiteral']
+            callee(x)[1].get('name') in ('strchr', 'find', 'memchr') and len(call_args(x)) >= 2 and _is_spec_set(call_args(x)[0])]
     okp = False
     detail = ''
     if len(disp) == 1:
@@ -253,7 +267,7 @@ def run(ctx):
                 if good:
                     okp = True
                     detail = '%s counted from %s' % (curk.split('#')[0], startk.split('#')[0])
-    ctx.check(okp, 'C08-escape', 'specifier dispatch only after an odd run of percent signs', disp[0] if disp else f,
+    ctx.check3(okp if len(disp) == 1 else None, 'C08-escape', 'specifier dispatch only after an odd run of percent signs', disp[0] if disp else f,
               'the characters after a run of percent signs are interpreted as a specifier without the length of that run having '
               'been found odd (counted from the start of the run): an escaped "%%" is taken for the start of a specifier',
               construct='escape:parity', detail=detail)
